@@ -94,6 +94,7 @@ func init() {
 		{Name: "c01-neverfail-island", MinSteps: 1, MaxSteps: 2, Durs: []int64{0, 5}, ErrOutput: true, OnlyErrOutputs: true, HangIsland: true, StructRefs: true},
 		{Name: "c01-neverfail", MinSteps: 1, MaxSteps: 3, Durs: []int64{0, 5, 50}, ErrOutput: true, OnlyErrOutputs: true, StructRefs: true, MaxOutputs: 2},
 		{Name: "c01-recovery", MinSteps: 2, MaxSteps: 4, Durs: []int64{0, 5, 50}, Modes: []string{"err", "alt"}, PBad: 40, PDisabled: 20, WaitOnNeverPath: 60, PWaitFor: 30, MaxOutputs: 2},
+		{Name: "c01-loops", MinSteps: 2, MaxSteps: 4, Durs: []int64{0, 5, 100}, Foreach: 50, Modes: []string{"err", "crash"}, PBad: 50, PDeployFail: 10, MaxOutputs: 2},
 		{Name: "c01-stop", MinSteps: 1, MaxSteps: 3, Durs: []int64{0, 5, 50}, StopIf: true},
 	}
 	register(&PropDef{ID: "C01",
@@ -158,7 +159,13 @@ func init() {
 		{Name: "c08-plain", PluginArith: true, MinSteps: 1, MaxSteps: 5, Durs: someDurs, PWaitFor: 40, DeepExpr: true, MaxOutputs: 2},
 	}
 	register(&PropDef{ID: "C08",
-		Gen:   func(t *rapid.T) *Case { return genS1(t, "C08", c08, rapid.Bool().Draw(t, "adv")) },
+		Gen: func(t *rapid.T) *Case {
+			if rapid.IntRange(0, 3).Draw(t, "loops_cancelled") == 0 {
+				// a loop that is closed in the middle of its run (caller cancellation) still has to report well-typed data
+				return genS2(t, "C08", c08[1:2], 70, 0, 0)
+			}
+			return genS1(t, "C08", c08, rapid.Bool().Draw(t, "adv"))
+		},
 		Check: s1Check("C08", OracleTypes),
 	})
 }
